@@ -144,10 +144,10 @@ def FwdImpl.renderItem (f : FwdImpl) : FwdItem → Toks
     let l := (refTypeWith f.this f.thisIsRef).toks
     let r := (refTypeWith f.rhs f.rhsIsRef).toks
     let lExpr := changeOwned ["self"] f.this implL f.thisIsRef
-    let rExpr := changeOwned ["rhs"] f.rhs implR f.rhsIsRef
+    let rExpr := changeOwned ["__rhs"] f.rhs implR f.rhsIsRef
     implItem autoDerived f.generics.implToks (bt ++ angle implRhs) implThis f.generics.whereToks
       (["type", "Output", "="] ++ (f.output.getD .never).toks ++ [";", "fn", bf] ++
-        paren (["self", ",", "rhs", ":"] ++ implRhs) ++ ["->", "Self", "::", "Output"] ++
+        paren (["self", ",", "__rhs", ":"] ++ implRhs) ++ ["->", "Self", "::", "Output"] ++
         brace (ufcs l (bt ++ angle r) bf ++ paren (lExpr ++ "," :: rExpr)))
   | .assign rhs callL =>
     let bt := opTraitPath f.op .binary
@@ -157,8 +157,8 @@ def FwdImpl.renderItem (f : FwdImpl) : FwdItem → Toks
     let l := (refTypeWith f.this callL).toks
     let lExpr := changeOwned ["self"] f.this true callL
     implItem autoDerived f.generics.implToks (at_ ++ angle rhs.toks) f.this.toks f.generics.whereToks
-      (["fn", af] ++ paren (["&", "mut", "self", ",", "rhs", ":"] ++ rhs.toks) ++
-        brace (["*", "self", "="] ++ ufcs l (bt ++ angle rhs.toks) bf ++ paren (lExpr ++ [",", "rhs"])))
+      (["fn", af] ++ paren (["&", "mut", "self", ",", "__rhs", ":"] ++ rhs.toks) ++
+        brace (["*", "self", "="] ++ ufcs l (bt ++ angle rhs.toks) bf ++ paren (lExpr ++ [",", "__rhs"])))
   | .binFromAssign =>
     let bt := opTraitPath f.op .binary
     let bf := opFunc f.op .binary
@@ -167,9 +167,9 @@ def FwdImpl.renderItem (f : FwdImpl) : FwdItem → Toks
     let this := f.thisOrig.toks
     let rhs := f.rhsOrig.toks
     implItem autoDerived f.generics.implToks (bt ++ angle rhs) this f.generics.whereToks
-      (["type", "Output", "="] ++ this ++ [";", "fn", bf] ++ paren (["mut", "self", ",", "rhs", ":"] ++ rhs) ++
+      (["type", "Output", "="] ++ this ++ [";", "fn", bf] ++ paren (["mut", "self", ",", "__rhs", ":"] ++ rhs) ++
         ["->", "Self", "::", "Output"] ++
-        brace (ufcs this (at_ ++ angle rhs) af ++ paren ["&", "mut", "self", ",", "rhs"] ++ [";", "self"]))
+        brace (ufcs this (at_ ++ angle rhs) af ++ paren ["&", "mut", "self", ",", "__rhs"] ++ [";", "self"]))
 
 def FwdImpl.render (f : FwdImpl) : List Toks := f.items.map f.renderItem
 
